@@ -78,7 +78,9 @@ def _leaves(ctx, level, state):
     for o in outs:
         if o.kind == "cutoff":
             raise AnalysisError(f"{level}/{state}: path cut off ({o.note})")
-        dims = frame_dims(I, o)
+        dims = frame_dims(I, o, nonminimal_marker=True)
+        if dims == "nonminimal":
+            continue   # refused for a longer-than-needed length encoding only: outside the tables
         if dims is None:
             # no frame was built on this path: must be a transport-level failure
             raise AnalysisError(f"{level}/{state}: a path ends without building a frame: {o.kind} {o.exc_class}")
